@@ -221,16 +221,20 @@ class BaseServer:
         # - self.handlers[namespace]["*"]
         # - self.handlers["*"][event]
         # - self.handlers["*"]["*"]
+        #
+        # An event or a namespace that a client literally names "*" must not
+        # be mistaken for the catch-all registrations, which expect the event
+        # and/or the namespace as extra leading arguments.
         handler = None
-        if namespace in self.handlers:
-            if event in self.handlers[namespace]:
+        if namespace != '*' and namespace in self.handlers:
+            if event != '*' and event in self.handlers[namespace]:
                 handler = self.handlers[namespace][event]
             elif event not in self.reserved_events and \
                     '*' in self.handlers[namespace]:
                 handler = self.handlers[namespace]['*']
                 args = (event, *args)
         if handler is None and '*' in self.handlers:
-            if event in self.handlers['*']:
+            if event != '*' and event in self.handlers['*']:
                 handler = self.handlers['*'][event]
                 args = (namespace, *args)
             elif event not in self.reserved_events and \
@@ -246,7 +250,7 @@ class BaseServer:
         # - self.namespace_handlers[namespace]
         # - self.namespace_handlers["*"]
         handler = None
-        if namespace in self.namespace_handlers:
+        if namespace != '*' and namespace in self.namespace_handlers:
             handler = self.namespace_handlers[namespace]
         if handler is None and '*' in self.namespace_handlers:
             handler = self.namespace_handlers['*']
